@@ -16,7 +16,7 @@ import (
 // <%= %> tags, in source order; <% %> and <%# %> tags contribute nothing, at top level and inside blocks;
 // string literals denote the characters between their quotes.
 //
-// Three streams (the third, C02-hist, is in oracle_c02_hist.go):
+// Four streams (the third, C02-hist, is in oracle_c02_hist.go; the fourth, C02-entry, in oracle_c02_entry.go):
 //   C02-text  every byte string up to a length bound over {< % > \ = # " a LF}. The expectation comes from
 //             c02RefText (the reference for the two escapes) and c02SimpleTag (the few tag shapes that
 //             fit in so few bytes and whose contribution the property fixes). Where a text contains a
@@ -27,6 +27,8 @@ import (
 //   C02-hist  histories of renders of such programs in one process (some abandoned by a helper panic or a
 //             returned error, nested renders, re-used templates, concurrent renders): every render that
 //             completes must still yield exactly its own text and values.
+//   C02-entry such programs (also wrapped in filler up to 64 KiB) through every public entry point; for RenderR
+//             through readers that use everything the io.Reader contract allows.
 
 // c02RefText is the reference for literal text: it decodes s up to the first live tag opener and returns
 // the decoded text and the offset of that opener (-1 if there is none).
@@ -1661,6 +1663,9 @@ func init() {
 			if strings.HasPrefix(cfg.Arg, "hist=") {
 				return []*Report{c02HistReplay(cfg)}
 			}
+			if strings.HasPrefix(cfg.Arg, "entry=") {
+				return []*Report{c02EntryReplay(cfg)}
+			}
 			if strings.HasPrefix(cfg.Arg, "want=") || strings.HasPrefix(cfg.Arg, "sig=") {
 				rep := NewReport("C02", "C02-seg", cfg)
 				rep.Rule = "replay of one segment program (expected output carried by the case)"
@@ -1696,6 +1701,6 @@ func init() {
 			}
 			return []*Report{rep}
 		}
-		return []*Report{c02TextStream(cfg, cfg.N(6, 8)), c02SegStream(cfg), c02HistStream(cfg)}
+		return []*Report{c02TextStream(cfg, cfg.N(6, 8)), c02SegStream(cfg), c02HistStream(cfg), c02EntryStream(cfg)}
 	}
 }
